@@ -298,6 +298,13 @@ func registerSDK(e *Engine) {
 		c.CheckTx = tBool(a[1])
 		return c
 	}
+	in[C+"WithIsReCheckTx"] = func(p *Path, a []Value) Value {
+		// sdk.Context.WithIsReCheckTx(true) also sets checkTx
+		c := ctxOf(a[0])
+		c.ReCheck = tBool(a[1])
+		c.CheckTx = Or(c.CheckTx, c.ReCheck)
+		return c
+	}
 	in[C+"WithEventManager"] = func(p *Path, a []Value) Value { return ctxOf(a[0]) }
 	in[C+"WithGasMeter"] = func(p *Path, a []Value) Value { return ctxOf(a[0]) }
 	in[C+"CacheContext"] = func(p *Path, a []Value) Value {
